@@ -339,7 +339,7 @@ def run(ck, facts):
     def len_conditions(fn):
         """(cond node, diverging?) for every `if` in fn whose condition speaks about `.len()` / `.is_empty()`"""
         out = []
-        for x in C.walk(C.fn_body(fn)):
+        for x in C.walk_inl(tool, C.fn_body(fn), 2, exclude=[fn["path"]]):
             if x.get("k") == "if" and any(y.get("k") == "mcall" and y.get("m") in ("len", "is_empty") for y in C.walk(x["c"])):
                 out.append((x["c"], C.diverges(x["t"]) or any(y.get("k") in ("ret", "continue", "break") for y in C.walk(x["t"]))))
         return out
@@ -382,6 +382,6 @@ def run(ck, facts):
             n6 += 1
             ck.expect(excludes_empty(len_conditions(cal)), "R6", "%s/guarded-by/%s" % (fkey, cal["path"].split("::")[-1]), "predicate excludes the empty list",
                       "`%s` guards a first()/last().unwrap() in %s but no longer returns early for an empty list" % (cal["path"].split("::")[-1], fkey), C.loc(cal))
-    if n6 < 2:
-        ck.bad("R6", "floor", "only %d guarded first()/last() unwrap sites found (2 counted)" % n6)
+    if n6 < 1:
+        ck.bad("R6", "floor", "no guarded first()/last() unwrap site found (4 counted)")
     dart_alloc_rules(ck, "R6", facts)
